@@ -283,9 +283,10 @@ def run_with_fifos(cmd, d, env, case, timeout):
                 return
             try:
                 os.set_blocking(fd, True)
-                view = memoryview(data)
+                view = memoryview(data); piece = case.get("fifo_piece") or 65536
                 while view:
-                    n = os.write(fd, view[:65536]); view = view[n:]
+                    n = os.write(fd, view[:piece]); view = view[n:]
+                    if piece < 64: time.sleep(0.0002)       # let the reader see the short piece on its own
             except OSError: pass
             finally: os.close(fd)
             return
